@@ -21,6 +21,7 @@ theorem exec_mod (k v : Nat) :
     rw [execList_mod k v t s ht, execList_mod k v e s he]
   | .ret e, s, _ => by unfold exec; rfl
   | .raise, s, _ => by unfold exec; rfl
+  | .widen ws, s, _ => by unfold exec; rfl
 
 theorem execList_mod (k v : Nat) :
     ∀ (p : List Stmt) (s : AState), condsBelowList k p = true → execList v p s = execList (v % 2 ^ k) p s
